@@ -120,6 +120,19 @@ def val_tok(v: Any) -> str:
     raise TypeError(f"no token for {v!r}")
 
 
+def canon_of(v: Any) -> str:
+    """canonical UPnP text of a float/date/time value (the harness' own rendering of what `out` must produce)"""
+    if isinstance(v, float):
+        return str(v)
+    if isinstance(v, dtm.datetime):
+        return v.isoformat("T", "seconds")
+    if isinstance(v, dtm.date):
+        return v.isoformat()
+    if isinstance(v, dtm.time):
+        return v.isoformat("seconds")
+    return str(v)
+
+
 def val_from_json(j: Any) -> Any:
     """recipe encoding of typed values: int/str/bool direct; ["f", repr] ["d", iso] ["dt", iso] ["t", iso]"""
     if isinstance(j, list):
@@ -544,8 +557,7 @@ async def run_case(recipe: Dict[str, Any]) -> Tuple[List[str], List[str], bool]:
                 for k, v in sc["ret"].items():
                     var = dict(map(tuple, adef["out"])).get(k)
                     if var in vtypes and vtypes[var] in OPAQUE:
-                        from async_upnp_client.const import STATE_VARIABLE_TYPE_MAPPING
-                        add_fact(w, vtypes[var], STATE_VARIABLE_TYPE_MAPPING[vtypes[var]]["out"](v))
+                        add_fact(w, vtypes[var], canon_of(v))
         w.script = sc
         w.seen = None
         if op["kind"] == "call":
@@ -555,11 +567,7 @@ async def run_case(recipe: Dict[str, Any]) -> Tuple[List[str], List[str], bool]:
             for k, v in args.items():
                 var = dict(map(tuple, adef["in"])).get(k)
                 if var in vtypes and vtypes[var] in OPAQUE:
-                    from async_upnp_client.const import STATE_VARIABLE_TYPE_MAPPING
-                    try:
-                        add_fact(w, vtypes[var], STATE_VARIABLE_TYPE_MAPPING[vtypes[var]]["out"](v))
-                    except Exception:  # noqa: BLE001
-                        pass
+                    add_fact(w, vtypes[var], canon_of(v))
             lines.append(f"call {i} {op['act']} {dict_tok(args)} {script_tok(sc)}")
             res, exc = None, None
             try:
